@@ -411,6 +411,14 @@ def judge_case(pid, run, case, res, known):
                 if allowed and not any((sl, sc) in allowed for sl, sc, _ in cands):
                     viol(f"{w} source map: token {show_tok(o)} at output column {o['c']} maps to {[(a, b) for a, b, _ in cands]}, its source token starts at {sorted(allowed)}", out=res[w == 'normal' and 'out' or 'low'])
                     return
+                if e.k == "raw-urange" and e.src is not None and e.src.src is not None and len(o.get("raw", "")) > 1:
+                    # the part after the `U` is copied verbatim as one piece: it has an entry of its own, at its first column
+                    tail = by_col.get((o["l"], o["c"] + 1))
+                    want_tail = (e.src.src[0], e.src.src[1] + 1)
+                    run.count("unicode_range_tails_checked")
+                    if not tail or not any((sl, sc) == want_tail for sl, sc, _ in tail):
+                        viol(f"{w} source map: the verbatim part of the unicode range {o['raw']!r} (output column {o['c'] + 1}) maps to {[(a, b) for a, b, _ in (tail or [])]}, it starts at {want_tail} in the source", out=res["out"])
+                        return
                 if e.name is not None and getattr(e, "kind", None) != "import-placeholder":
                     names_here = [n for _, _, n in cands]
                     ok_name = e.name in names_here if not e.cls else any(n is not None and css_ident_value(n) == e.name for n in names_here)
